@@ -443,7 +443,16 @@ func drawOpts(t *rapid.T, m *model, c cid.Cid) (api.PinOptions, string) {
 	case "expire-clear":
 		o.ExpireAt = time.Time{}
 	case "expire-past":
-		o.ExpireAt = time.Now().Add(-time.Hour)
+		// an hour ago, a second ago, or the oldest instant the REST API can
+		// express (1970-01-01T00:00:00Z): all before now
+		switch rapid.IntRange(0, 2).Draw(t, "past") {
+		case 0:
+			o.ExpireAt = time.Now().Add(-time.Hour)
+		case 1:
+			o.ExpireAt = time.Now().Add(-time.Second)
+		case 2:
+			o.ExpireAt = time.Unix(0, 0)
+		}
 	case "expire-nanos":
 		o.ExpireAt = gen.Base.Add(time.Duration(rapid.IntRange(1, 999999999).Draw(t, "ns")))
 	case "shardsize":
@@ -453,7 +462,7 @@ func drawOpts(t *rapid.T, m *model, c cid.Cid) (api.PinOptions, string) {
 	return o, "delta:" + d
 }
 
-const rule = "state machine over 10 CIDs (4 plain, 2 sharded roots with their cluster DAG and shard entries) and 5 healthy members: Pin/PinPath with fresh options or a single-field delta of the stored options (name, mode, factors, 0/0 defaults, invalid factors, metadata key added/removed/changed, origin added/removed, user allocations, expiry set/cleared/past/sub-second, shard size), Cluster.Pin RPC with well-formed pins of every type and preset allocations, sharded installs, PinUpdate (direct and through the update option), Unpin/UnpinPath, flips of the cluster default factors and of follower mode; after every step the pinset, the returned value/error and the LogPin/LogUnpin calls are compared with a model written from the statement; non-trivial = history has a re-pin of a stored CID with a delta and a refusal; distinct by action script"
+const rule = "state machine over 10 CIDs (4 plain, 2 sharded roots with their cluster DAG and shard entries) and 5 healthy members: Pin/PinPath with fresh options or a single-field delta of the stored options (name, mode, factors, 0/0 defaults, invalid factors, metadata key added/removed/changed, origin added/removed, user allocations, expiry set/cleared/past/sub-second, shard size), Cluster.Pin RPC with well-formed pins of every type and preset allocations, sharded installs, PinUpdate (direct and through the update option), Unpin/UnpinPath, Unpin of a sharded root while the daemon cannot produce its cluster-DAG block (must be refused as a whole), flips of the cluster default factors and of follower mode; after every step the pinset, the returned value/error and the LogPin/LogUnpin calls are compared with a model written from the statement; non-trivial = history has a re-pin of a stored CID with a delta and a refusal; distinct by action script"
 
 func TestPinset(t *testing.T) {
 	leg := ev.L("pinset", rule)
@@ -728,6 +737,27 @@ func TestPinset(t *testing.T) {
 				} else {
 					apply(fmt.Sprintf("Unpin(%s)", cname(c)), e, func() (*api.Pin, error) { return fx.C.Unpin(ctx, c) }, prev)
 				}
+			},
+			"unpinWithUnreadableDag": func(t *rapid.T) {
+				// the IPFS daemon cannot produce the cluster-DAG block (down,
+				// block collected): the shards of the item cannot be
+				// enumerated, so the unpin cannot be carried out as a whole
+				s := shardSets[rapid.IntRange(0, len(shardSets)-1).Draw(t, "set")]
+				prev := m.pins[s.meta.String()]
+				e := m.expectUnpin(s.meta)
+				if e.refuse == "" && prev != nil && prev.Type == api.MetaType {
+					e = expect{refuse: "cluster-DAG block unreadable"}
+					classes["unpin-meta-dag-unreadable"] = true
+				}
+				key := s.dag.String()
+				fx.IPFS.Lock()
+				raw := fx.IPFS.Blocks[key]
+				delete(fx.IPFS.Blocks, key)
+				fx.IPFS.Unlock()
+				apply(fmt.Sprintf("Unpin(%s) while its cluster-DAG block is unreadable", cname(s.meta)), e, func() (*api.Pin, error) { return fx.C.Unpin(ctx, s.meta) }, prev)
+				fx.IPFS.Lock()
+				fx.IPFS.Blocks[key] = raw
+				fx.IPFS.Unlock()
 			},
 			"setDefaults": func(t *rapid.T) {
 				f := gen.Factors(false).Draw(t, "defaults")
